@@ -20,11 +20,19 @@ SCALE = ["ldexp", "scalbn", "scalbln"]
 # cheap ones first: if the thorough deadline cuts the full-pair sweep short, the cut falls on as few functions as possible
 BINARY = ["copysign", "nextafter", "fmax", "fmin", "fdim", "fmod", "remainder", "remquo", "atan2", "hypot", "pow"]
 FULL_CHUNKS = 256            # chunks of 256 x-values x all 65536 y-values
+# further library configurations: HALF_ROUND_STYLE 0 (toward zero), 2 (toward +inf), 3 (toward -inf) x error handling off / on.
+# "correctly rounded" is read relative to the configured style: the reference is MPFR rounding in the same direction.
+DIRECTED_ALL = ["rs0", "rs0eh", "rs2", "rs2eh", "rs3", "rs3eh"]
+DIRECTED_QUICK = ["rs3eh", "rs0eh", "rs2"]      # every style once, both copies of the rounding helpers; the full cross product is thorough
+EH_DEFINES = ["HALF_ERRHANDLING_FLAGS=1", "HALF_ERRHANDLING_ERRNO=1"]
 
 
 def build(kind):
     if kind == "fast":
         return vlib.compile_cxx(SRC, "c09", std="c++14", opt="-O2", san="none", libs=["-lmpfr", "-lgmp"])
+    if kind.startswith("rs"):
+        defs = ["HALF_ROUND_STYLE=" + kind[2]] + (EH_DEFINES if kind.endswith("eh") else [])
+        return vlib.compile_cxx(SRC, "c09" + kind, std="c++14", opt="-O2", san="none", libs=["-lmpfr", "-lgmp"], defines=defs)
     if kind == "eh":
         # the library's error handling compiled in: detail::raise/select/rounded/... take their `#if HALF_ERRHANDLING` branches
         return vlib.compile_cxx(SRC, "c09eh", std="c++14", opt="-O2", san="none", libs=["-lmpfr", "-lgmp"],
@@ -43,7 +51,9 @@ def run(ctx):
 
     def b(kind):
         bins[kind] = build(kind)
-    vlib.parallel([lambda: b("fast"), lambda: b("asan"), lambda: b("eh")], workers=3)
+    directed = DIRECTED_QUICK if quick else DIRECTED_ALL
+    kinds = ["fast", "asan", "eh"] + directed
+    vlib.parallel([(lambda k=k: b(k)) for k in kinds], workers=len(kinds))
     fast, asan, eh = bins["fast"], bins["asan"], bins["eh"]
 
     # soft deadline: no new harness process is started after it; whatever was not started is reported as a cap
@@ -133,6 +143,30 @@ def run(ctx):
     if not quick:
         for k in range(64):
             jobs.append(job("nexttoward-halves-full", fast, ["--nexttoward", "halves", "full", str(k), "64"], "c09"))
+    # 9. directed rounding configurations (HALF_ROUND_STYLE 0 / 2 / 3, with and without error handling), reference rounded in the same
+    #    direction: every unary function on all 2^16 inputs, the float-like and scaling parts, the alphabet-1 pairs and the special
+    #    operands of the 11 binary functions, hypot(x,y,z) cube 0 and NaN triples.  Quick: three of the six builds, fast reference with
+    #    MPFR on undecided / mismatching cases; thorough: all six, MPFR on every pair and every triple.
+    for kind in directed:
+        dbin, tag, grp = bins[kind], "c09-" + kind, "directed:" + kind
+        for fn in UNARY:
+            for lo, hi in ranges(UNARY_HEAVY.get(fn, 1)):
+                jobs.append(job(grp, dbin, ["--unary", fn, str(lo), str(hi)], tag))
+        for fn in FLOATLIKE:
+            jobs.append(job(grp, dbin, ["--floatlike", fn], tag))
+        for fn in SCALE:
+            jobs.append(job(grp, dbin, ["--scale", fn, "0", "65536"], tag))
+        for fn in BINARY:
+            jobs.append(job(grp, dbin, ["--pairs", fn, "spec", "1", "0", "1"], tag))
+            if quick:
+                jobs.append(job(grp, dbin, ["--pairs", fn, "alpha1", "1", "0", "1"], tag))
+            else:
+                n = 4 if fn in ("atan2", "pow", "hypot") else 1
+                for k in range(n):
+                    jobs.append(job(grp, dbin, ["--pairs", fn, "alpha1", "0", str(k), str(n)], tag))
+        jobs.append(job(grp, dbin, ["--triples", "nans"], tag))
+        for k in range(4):
+            jobs.append(job(grp, dbin, ["--triples", "cube0", "1" if quick else "0", str(k), "4"], tag))
     # 6b. three-argument hypot: alphabet-0 cube with integer verdict + MPFR on every triple; derived family (z around 2^-k max(|x|,|y|),
     #     k = 10..20, three positions) over all alphabet-1 pairs; all exact-tie pairs of sqrt(x^2+y^2) x tiny z
     for k in range(16):
@@ -198,11 +232,20 @@ def run(ctx):
         ("" if quick else " and ALL 2^32 (from, half-valued to) pairs") +
         "; oracle = C's nexttoward on binary16 written from the definition (NaN if either is a NaN; to - i.e. from, for zeros the sign of to - if they compare equal; otherwise the binary16 value adjacent to from on the side of to, "
         "however small the difference), comparison exact in long double, guarded by an exact MPFR comparison of the hand-decoded long double, by the nextafter reference for half-valued directions and by the direction glibc nexttowardf moves in; "
-        "re-run in the error-handling build (absolute+relative directions, 1000-value half alphabet) and the sanitizer build (absolute+relative directions). distinct_nontrivial = cases whose reference result is finite, non-zero and different from the argument(s) (for integer-valued results: different from the argument); every (function, argument) is visited once, so cases are distinct by construction; "
+        "re-run in the error-handling build (absolute+relative directions, 1000-value half alphabet) and the sanitizer build (absolute+relative directions); "
+        "(9) CONFIGURATION dimension: the library built with HALF_ROUND_STYLE = 0 (toward zero), 2 (toward +infinity), 3 (toward -infinity), each without and with error handling (" +
+        ("quick tier: the three builds style 3 + error handling, style 0 + error handling, style 2 without; the thorough tier runs all six" if quick else "all six builds") +
+        "). 'Correctly rounded binary16 value' is read relative to the configured style: the reference is MPFR rounding in the SAME direction (MPFR_RNDZ / RNDU / RNDD, precision 11, emin -23, emax 16, mpfr_subnormalize in that direction; overflow "
+        "toward zero stops at 65504, underflow away from zero at 2^-24), 0 ULP for the functions documented exact to rounding, <= 1 ULP on the ordered line of halves for the eight 1-ULP functions, special values exact. Per build: all 2^16 inputs of the 26 unary entry points, "
+        "the float-like functions (rint nearbyint lrint llrint against trunc / ceil / floor of the float, the others unchanged), ldexp scalbn scalbln on all halves x the exponent alphabet, the 11 binary functions on all ordered pairs of the 1000-value alphabet and of the special-operand set, "
+        "hypot(x,y,z) on the 315-value cube (directed integer square root) and the NaN triples" +
+        (" (fast reference rounded in that direction, MPFR on undecided and mismatching cases)" if quick else " (MPFR on every pair and every triple)") +
+        "; counted as evaluations, not again as distinct. distinct_nontrivial = cases whose reference result is finite, non-zero and different from the argument(s) (for integer-valued results: different from the argument); every (function, argument) is visited once, so cases are distinct by construction; "
         "the alphabet sweeps overlap each other (and the full sweep) by design and are counted as evaluated.")
     ctx.assumptions += [
         "MPFR 4.2 / GMP are the reference; it is cross-checked on every MPFR-decided case against MPFR at 256 bits rounded by an independent integer routine, and where decisive against glibc long double; special values against glibc float. A reference disagreement is a harness error",
-        "library configurations: as shipped (HALF_ROUND_STYLE = to nearest, no HALF_ARITHMETIC_TYPE, HALF_ERRHANDLING off, software conversions) for everything, plus HALF_ERRHANDLING_FLAGS=1 + HALF_ERRHANDLING_ERRNO=1 for the parts listed in rule; "
+        "library configurations: as shipped (HALF_ROUND_STYLE = to nearest, no HALF_ARITHMETIC_TYPE, HALF_ERRHANDLING off, software conversions) for everything, plus HALF_ERRHANDLING_FLAGS=1 + HALF_ERRHANDLING_ERRNO=1 for the parts listed in rule, "
+        "plus HALF_ROUND_STYLE 0 / 2 / 3 (x error handling off / on) for part 9; "
         "only returned values are judged, never the exception flags / errno themselves; HALF_ERRHANDLING_FENV and the THROW_* macros are not built",
         "with error handling compiled in, a signalling NaN operand that Annex F would let a quiet NaN be ignored for (fmax fmin hypot pow) yields NaN by design of detail::select; Annex F does not define signalling NaNs, NaN is accepted there",
         "NaN results are judged as 'is a NaN' (sign and payload free); the sign of fmax/fmin(+-0, -+0) is free (C leaves it open)",
@@ -212,6 +255,9 @@ def run(ctx):
         "nexttoward(half, long double) is judged as the long double-direction overload of nextafter ('nextafter steps to the adjacent binary16 value'; it lies inside the anchored block 3597-3771 and C defines it as "
         "'equivalent to nextafter except that the second parameter has type long double'); long double is the x87 80-bit extended format (LDBL_MANT_DIG 64, static_assert in the harness); directions are enumerated over the stated "
         "alphabet, not over all 2^80 long doubles; pseudo-denormal/unnormal/pseudo-NaN encodings (not values of the type) are not passed",
+        "reading of the statement under a configured rounding style: 'the correctly rounded binary16 value of the mathematical result' is that result rounded in the configured direction (the library documents these functions as 'exact to rounding for all rounding modes'); "
+        "all function groups were measured on the unmodified tree in all six directed builds before being judged (0 deviations, also for the 1-ULP functions against the directed reference), so none is left out; "
+        "nexttoward, the three-argument hypot families beyond cube 0, the 3976-value pair alphabet and the full 2^32 pair sweep are not repeated in the directed builds",
         "fma and sqrt are not part of this check (C08)",
         "g++ 12 -O2 on x86-64 (plus an ASan/UBSan-bounds -O1 build over all unary inputs and the alphabet-1 pairs)",
     ]
@@ -220,5 +266,6 @@ def run(ctx):
 
 
 def replay(ctx, rec):
-    kind = {"c09-asan": "asan", "c09-eh": "eh"}.get(rec.get("harness"), "fast")
+    h = rec.get("harness") or ""
+    kind = {"c09-asan": "asan", "c09-eh": "eh"}.get(h, h[4:] if h.startswith("c09-rs") else "fast")
     ctx.run_harness(build(kind), rec["args"], tag=rec.get("harness") or "c09")
